@@ -50,6 +50,9 @@ func main() {
 			if fd.Name.Name == "translateAssign" {
 				assignDecision(fset, filepath.Base(name), fd)
 			}
+			if fd.Name.Name == "makeReceiver" {
+				receiverDecision(fset, filepath.Base(name), fd)
+			}
 			ast.Inspect(fd.Body, func(n ast.Node) bool {
 				switch x := n.(type) {
 				case *ast.BasicLit:
@@ -154,4 +157,31 @@ func assignDecision(fset *token.FileSet, file string, fd *ast.FuncDecl) {
 		}
 	}
 	walk(fd.Body, nil)
+}
+
+// receiverDecision prints which type decides the receiver copy in makeReceiver: the arguments of the
+// translateImplicitConversionWithCloning call and the definitions of the identifiers used as its type argument.
+func receiverDecision(fset *token.FileSet, file string, fd *ast.FuncDecl) {
+	typeArgs := map[string]bool{}
+	ast.Inspect(fd.Body, func(n ast.Node) bool {
+		if c, ok := n.(*ast.CallExpr); ok {
+			if s, ok := c.Fun.(*ast.SelectorExpr); ok && s.Sel.Name == "translateImplicitConversionWithCloning" && len(c.Args) == 2 {
+				fmt.Printf("%s\t%s\treceiver-clone-by: %s\t%d\n", file, fd.Name.Name, src(fset, c.Args[1]), fset.Position(c.Pos()).Line)
+				if id, ok := c.Args[1].(*ast.Ident); ok {
+					typeArgs[id.Name] = true
+				}
+			}
+		}
+		return true
+	})
+	ast.Inspect(fd.Body, func(n ast.Node) bool {
+		if a, ok := n.(*ast.AssignStmt); ok {
+			for _, l := range a.Lhs {
+				if id, ok := l.(*ast.Ident); ok && typeArgs[id.Name] {
+					fmt.Printf("%s\t%s\treceiver-clone-type: %s\t%d\n", file, fd.Name.Name, src(fset, a), fset.Position(a.Pos()).Line)
+				}
+			}
+		}
+		return true
+	})
 }
